@@ -24,6 +24,11 @@ CLAIMED["C17"] = {
     "design_ref": "DESIGN.md section 5 C17",
     "technique": "Coq proof on a Num-generic model + bit-exact Flocq/vm_compute correspondence",
 }
+CLAIMED["C07"] = {
+    "text": "Nine Coq theorems, closed under the global context, for ALL schedules of a writer thread and an audio thread over a step-level model of triple_buffer 8.1 as kira::command uses it (two-half fills so tearing is expressible, publish swap, dirty load, swap, two-half copy): slot ownership, no torn value, returned publication numbers strictly increasing (exactly once, last write wins, nothing late), quiescent delivery, callback semantics (a command issued between callbacks j and j+1 is applied in j+1 iff it is the last of its kind, racing ones in j+1 or j+2, never twice), first-callback delivery, independence of kinds, decoder-side kinds. Correspondence: all 2^12 / 3^7 whole-call sequences and random step sequences on the real crate compared with the model; all 63 command kinds found by grepping /repo exercised through real handles (burst vs last-only twin runs, absolute probes); two-thread stress. Partial: sequential consistency assumed; interleavings inside triple_buffer on real threads only sampled.",
+    "design_ref": "DESIGN.md section 5 C07",
+    "technique": "Coq proof (inductive invariant over all interleavings) + correspondence of the protocol model with the real crate and handles",
+}
 REASON_WIP = "check not built yet in this session (work in progress; planned per DESIGN.md section 5)"
 
 def main():
